@@ -28,7 +28,7 @@ class C13(TalCheck):
     level = "fault_enumeration"
     gen_opts = {"on_error": 0.5, "max_sites": 24, "pipes": 0.2,
                 "prefixes": 0.15, "macros": 0.3, "i18n": 0.2, "code": 0.1,
-                "markers": 0.3, "errinfo_all": 0.3}
+                "markers": 0.3, "errinfo_all": 0.3, "selfclose": 0.4}
     plans_per_template = 45
     async_interrupts = 10
 
